@@ -8,7 +8,7 @@
    map-iteration oracle and clock value) of the model of the REPAIRED code
    (fixes 7baf630 c9f204c d6f86b5 in /repo; see FIXLOG.md). *)
 From PV Require Import Base.Prelude Base.Text Model.DHCP Model.DHCPShow Spec.DHCP Spec.DHCPCheck
-  Proofs.DHCP Proofs.DHCPInv Proofs.DHCPRefuted.
+  Proofs.DHCP Proofs.DHCPInv Proofs.DHCPReply Proofs.DHCPTie Proofs.DHCPRefuted.
 Open Scope list_scope.
 Open Scope N_scope.
 
@@ -44,6 +44,14 @@ Theorem C11_reserved : forall c h t m r,
   c11_not_reserved c (t_pre t) m r = true.
 Proof. exact not_reserved_all. Qed.
 Print Assumptions C11_reserved.
+
+(* The spec column of the dispatch module D11 (the list of failed C11 demands per step,
+   evaluated on the model's trace) is empty along every history: an alarm "viol ..." of
+   the extracted model is impossible, so every alarm of the run is a model/implementation
+   disagreement. *)
+Theorem C11_spec_column_never_fails : forall c h t, In t (trace c (init c) h) -> c11_fails c t = [].
+Proof. exact c11_fails_nil. Qed.
+Print Assumptions C11_spec_column_never_fails.
 
 (* Non-vacuity: a history whose steps answer OFFER, ACK (home pool), OFFER, ACK
    (netfilter pool, captured client) and a renewal ACK. *)
